@@ -1,6 +1,7 @@
 package drivers
 
 import (
+	"bytes"
 	"runtime"
 	"crypto/aes"
 	"crypto/cipher"
@@ -204,6 +205,25 @@ func RunKeyFile(c *Ctx) error {
 		}
 		os.WriteFile(path, orig, 0o600)
 	}
+	// passphrases are byte strings: leading / trailing white space is part of them, on every entry point alike
+	for wi, wp := range []string{" leading", "trailing\n", "\tboth \r\n", "in ner", "\n"} {
+		pass := []byte(wp)
+		d := filepath.Join(dir, fmt.Sprintf("ws%d", wi))
+		s0, err := filesigner.CreateFileSystemSigner(d, append([]byte(nil), pass...))
+		if err != nil {
+			c.Tr.Emit("KExport", world.F{"ok": false, "same": false, "where": "create-ws"})
+			continue
+		}
+		pub, _ := s0.GetPublic()
+		path := filepath.Join(d, "signer.json")
+		load(path, "none", "", "right", pass, pub)
+		if trimmed := bytes.TrimSpace(pass); len(trimmed) != len(pass) {
+			load(path, "none", "", "wrong", trimmed, pub) // another passphrase
+		}
+		load(path, "none", "", "wrong", append([]byte(" "), pass...), pub)
+		// exported with the passphrase it was created under; imported and loaded under a white-space passphrase
+		importOverWith(c, d, filepath.Join(dir, fmt.Sprintf("wsimp%d", wi)), pass, pass, pub, "ws-passphrase")
+	}
 	// legacy (salt-less) files, built with the old key derivation, for several passphrase lengths
 	for li, pass := range passes {
 		priv, pub, _ := crypto.GenerateEd25519Key(rand.Reader)
@@ -237,12 +257,15 @@ func RunKeyFile(c *Ctx) error {
 // is already there - under a new passphrase; the result must load with the new passphrase, to the same
 // key, and must not load with the old one.
 func importOver(c *Ctx, src, dst string, pass []byte, pub crypto.PubKey, where string) {
+	importOverWith(c, src, dst, pass, []byte("the new passphrase"), pub, where)
+}
+
+func importOverWith(c *Ctx, src, dst string, pass, newPass []byte, pub crypto.PubKey, where string) {
 	defer func() {
 		if p := recover(); p != nil {
 			c.Tr.Emit("Panic", world.F{"node": "key", "where": "import-" + where, "msg": trunc(fmt.Sprint(p))})
 		}
 	}()
-	newPass := []byte("the new passphrase")
 	raw, err := filesigner.ExportPrivateKey(src, append([]byte(nil), pass...))
 	ok := err == nil
 	if ok {
